@@ -325,7 +325,11 @@ class Printer:
             self.map.add_def(("proto:" + p.name,), "proto", n, 7, p.name, self.file)
         if st.escaped_strings and p.name is not None:
             # one source line; the VALUE contains line feeds - no later position may move because of it
-            self.emit(0, 'const STYLE_NOTE_%s = "l1\\nl2\\n\\n\\tq\\"uo\\"te \\\\n"%s' % (re.sub(r"\W", "_", p.name).upper(), self.semi()))
+            # ... followed ON THE SAME LINE by a second definition: its column counts characters (not bytes, not escapes)
+            tag = re.sub(r"\W", "_", p.name).upper()
+            first = 'const STYLE_NOTE_%s = "l1\\nl2\\n\\n\\tq\\"uo\\"te \u00e9\u4e2d\U0001f600 \\\\n"; ' % tag
+            n = self.emit(0, first + "const STYLE_K_%s = 7%s" % (tag, self.semi()))
+            self.map.add_def(("STYLE_K_%s" % tag,), "const", n, len(first) + 7, "STYLE_K_%s" % tag, self.file)
         if p.imports:
             self.emit(0, "")
         for as_name, child in p.imports:
